@@ -663,6 +663,35 @@ func c09(c *core.Ctx) {
 			})
 			c.Check(bad == token.NoPos, core.FuncName(hc.Fn)+":deadline-applied-before-the-body-is-awaited", hc.Fn.Pos(), "no read of the request body precedes the decoding of the timeout header", "the request body is read before the timeout header is turned into the handler's deadline: the timeout then runs from the end of the upload, so the handler's deadline is later than the caller's by however long the body took to arrive")
 		}
+		// no request gets a handler context without its timeout header having been looked at: in the function that
+		// reads the header, every return that does not report an error lies behind the read (a lenient branch that
+		// leaves early — "metadata partly undecodable, go on with what there is" — skips the deadline)
+		for _, f := range p.LibFuncs("httpgrpc") {
+			var get *ssa.Call
+			for _, g := range core.CallsIn(f, func(call *ssa.Call, ci core.CallInfo) bool {
+				if !ci.Is("net/http.Header.Get") || len(call.Call.Args) < 2 {
+					return false
+				}
+				k, ok := core.ConstString(call.Call.Args[1])
+				return ok && strings.Contains(strings.ToLower(k), "timeout")
+			}) {
+				get = g
+			}
+			ei := core.ErrResultIndex(f.Signature)
+			if get == nil || ei < 0 || f.Signature.Results().Len() < 2 || core.TypeStr(f.Signature.Results().At(0).Type()) != "context.Context" {
+				continue
+			}
+			bad := token.NoPos
+			for _, r := range core.Returns(f) {
+				if core.ClassifyErr(r.Results[ei], r) == core.ErrNonNil {
+					continue
+				}
+				if !core.MustPass(core.Entry(f), r, func(in ssa.Instruction) bool { return in == ssa.Instruction(get) }) {
+					bad = r.Pos()
+				}
+			}
+			c.Check(bad == token.NoPos, core.FuncName(f)+":timeout-header-read-on-every-accepting-path", get.Pos(), "every return without an error passes the read of the timeout header", "the function that builds the handler's context can return without an error before it has looked at the timeout header: such a request is dispatched with no deadline although it carries one")
+		}
 		// the context handed back carries the deadline: on every path that passed the deadline step the returned
 		// context derives from that step's result (not from its parent again)
 		for _, f := range fam {
